@@ -63,7 +63,7 @@ Inductive reason :=
 | NotLower | BadValue | PseudoAfterRegular | UnknownPseudo | DupPseudo | RspPseudoInRequest
 | ReqPseudoInResponse | BadName | ConnSpecific | BadTE | CLContradict | CLInvalid
 | PseudoInTrailer | BadTrailerName | ExtConnectRule | ConnectRule | NormalRule | ProtocolRule
-| MissingStatus | BadStatus | UrlParse | UrlParseExt.
+| MissingStatus | BadStatus | UrlParse | UrlParseExt | EmptyPseudo | ConnectSchemeRule.
 
 Inductive err :=
 | ETooLarge                 (* errHeaderTooLarge: 431 + H3_EXCESSIVE_LOAD *)
@@ -98,6 +98,10 @@ Fixpoint hdel (k : bytes) (m : hmap) : hmap :=
 Definition is_lc (b : Z) : bool := (97 <=? b) && (b <=? 122).
 Definition is_uc (b : Z) : bool := (65 <=? b) && (b <=? 90).
 Definition is_digit (b : Z) : bool := (48 <=? b) && (b <=? 57).
+(** ASCII lower-casing (strings.ToLower / strings.EqualFold on ASCII header names; used by the
+    writers' model and by the proofs about canonicalisation) *)
+Definition lower_byte (b : Z) : Z := if is_uc b then b + 32 else b.
+Definition lower_bytes (s : bytes) : bytes := map lower_byte s.
 (** tchar of RFC 9110 5.6.2 = textproto.validHeaderFieldByte *)
 Definition is_tchar (b : Z) : bool :=
   is_lc b || is_uc b || is_digit b ||
@@ -203,6 +207,8 @@ Definition pstep (isReq : bool) (st : pst) (f : field) : err + pst :=
            if get_flag sl (pSeen st) then inl (EMalformed DupPseudo)
            else if isReq && slot_is_response sl then inl (EMalformed RspPseudoInRequest)
            else if negb isReq && negb (slot_is_response sl) then inl (EMalformed ReqPseudoInResponse)
+           (* fixes/C19-empty-pseudo-header.patch: no pseudo-header has a valid empty value *)
+           else if is_empty (fvalue f) then inl (EMalformed EmptyPseudo)
            else inr (PS (set_slot sl (fvalue f) (pPs st)) (set_flag sl (pSeen st)) (pHeaders st) (pRegular st) (pReadCL st) (pCL st) lim)
          end
   else match validate_regular f with
@@ -275,7 +281,8 @@ Definition bad_trailer : list bytes := map bs
    "Content-Type"; "Expect"; "Host"; "Keep-Alive"; "Max-Forwards"; "Pragma"; "Proxy-Authenticate";
    "Proxy-Authorization"; "Proxy-Connection"; "Range"; "Realm"; "Te"; "Trailer"; "Transfer-Encoding";
    "Www-Authenticate"]%string.
-Definition has_prefix_if (s : bytes) : bool := match s with 73 :: 102 :: 45 :: _ => true | _ => false end.
+Definition has_prefix_if (s : bytes) : bool :=
+  match s with a :: b :: c :: _ => (a =? 73) && (b =? 102) && (c =? 45) | _ => false end.
 Definition valid_trailer (n : bytes) : bool :=
   let c := canon n in negb (has_prefix_if c) && negb (mem c bad_trailer).
 
@@ -363,7 +370,9 @@ Definition request_of (h : hdr) (uri : bytes -> bool * bytes * bytes) : err + re
     if isExt then
       if is_empty (sScheme p) || is_empty (sPath p) || is_empty (sAuthority p) then Some ExtConnectRule else None
     else if isConnect then
-      if negb (is_empty (sPath p)) || is_empty (sAuthority p) then Some ConnectRule else None
+      if negb (is_empty (sPath p)) || is_empty (sAuthority p) then Some ConnectRule
+      else if negb (is_empty (sScheme p)) then Some ConnectSchemeRule   (* fixes/C19-connect-with-scheme.patch *)
+      else None
     else if is_empty (sPath p) || is_empty (sAuthority p) || is_empty (sMethod p) then Some NormalRule else None in
   match rule with
   | Some r => inl (EMalformed r)
@@ -394,9 +403,8 @@ Definition requestFromHeaders (lim : Z) (fs : list field) (tailerr : bool) (uri 
 (** strconv.Atoi on a 64-bit platform: optional sign, >= 1 decimal digits, value in int64. *)
 Definition atoi (s : bytes) : option Z :=
   let '(neg, d) := match s with
-                   | 45 :: r => (true, r)
-                   | 43 :: r => (false, r)
-                   | _ => (false, s)
+                   | c :: r => if c =? 45 then (true, r) else if c =? 43 then (false, r) else (false, s)
+                   | [] => (false, s)
                    end in
   if is_empty d then None
   else match digits_val 0 d with
